@@ -155,6 +155,7 @@ def judge_all(ctx, events, by_id):
     contract, which yields the signature tags the known findings are matched on:
       permount_ok    the whole trace is accepted when every mount counts as its own device   (KF-C05-1)
       classblind_ok  the whole trace is accepted when every mount counts for every class     (KF-C05-4)
+      both_ok        accepted with both relaxations at once (a layout where both defects combine)
       kf4_sig        structural signature of KF-C05-4"""
     traces = vlib.split_traces(events)
     rej = rejected_traces(traces, run_judge(ctx, events, "Judge_Balance.cfg"))
@@ -163,6 +164,7 @@ def judge_all(ctx, events, by_id):
         flat = [e for t in sub for e in t]
         bad_pm = set(i for i, off in rejected_traces(sub, run_judge(ctx, flat, "Judge_Balance_permount.cfg")))
         bad_cb = set(i for i, off in rejected_traces(sub, run_judge(ctx, flat, "Judge_Balance_classblind.cfg")))
+        bad_both = set(i for i, off in rejected_traces(sub, run_judge(ctx, flat, "Judge_Balance_both.cfg")))
     for j, (i, off) in enumerate(rej):
         if len(ctx.violations) >= 25:
             ctx.log("judge: 25 violations, not classifying the remaining rejections")
@@ -171,6 +173,7 @@ def judge_all(ctx, events, by_id):
         ev = t[off - 1]
         ev["permount_ok"] = j not in bad_pm
         ev["classblind_ok"] = j not in bad_cb
+        ev["both_ok"] = j not in bad_both
         ev["kf4_sig"] = kf4_signature(t)
         if os.environ.get("VERIF_DEBUG"):
             print("REJECTED", off, json.dumps(t))
